@@ -155,14 +155,24 @@ func (n *Notifier) PublishContext(ctx context.Context, key any, value any) {
 		if keySubscriber.ctx != nil && keySubscriber.ctx.Err() != nil {
 			continue
 		}
-		if !valueRef.Type().AssignableTo(keySubscriber.target.Type().Elem()) {
+		sendRef := valueRef
+		if !valueRef.IsValid() {
+			// untyped nil: deliverable as the zero value of any nilable element type
+			elem := keySubscriber.target.Type().Elem()
+			switch elem.Kind() {
+			case reflect.Chan, reflect.Func, reflect.Interface, reflect.Map, reflect.Ptr, reflect.Slice, reflect.UnsafePointer:
+				sendRef = reflect.Zero(elem)
+			default:
+				continue
+			}
+		} else if !valueRef.Type().AssignableTo(keySubscriber.target.Type().Elem()) {
 			continue
 		}
 		if keySubscriber.ctx != nil {
 			failureCases = append(failureCases, reflect.SelectCase{Dir: reflect.SelectRecv, Chan: reflect.ValueOf(keySubscriber.ctx.Done())})
 			failureRefs = append(failureRefs, len(successCases))
 		}
-		successCases = append(successCases, reflect.SelectCase{Dir: reflect.SelectSend, Chan: keySubscriber.target, Send: valueRef})
+		successCases = append(successCases, reflect.SelectCase{Dir: reflect.SelectSend, Chan: keySubscriber.target, Send: sendRef})
 	}
 
 	for len(successCases) != 0 {
